@@ -47,7 +47,7 @@ const (
 	opUnRegister
 )
 
-var allKeys = [][]byte{[]byte("a"), []byte("b"), []byte("c"), []byte("aa"), []byte("d"), []byte("e")}
+var allKeys = [][]byte{[]byte("a"), []byte("b"), {}, []byte("c"), []byte("aa"), []byte("d"), []byte("e")} // the empty key is legal
 var allVals = [][]byte{[]byte("v1"), []byte("v2"), []byte("w"), {}}
 var allIDs = [][]byte{[]byte("h1"), []byte("h2"), []byte("h3")}
 
